@@ -59,8 +59,21 @@ class TraceModelCheck:
             di, dargs = job
             trace = os.path.join(work, "trace%d.ndjson" % di)
             stats = os.path.join(work, "stats%d.json" % di)
-            c.run_driver(binary, [dargs[0], "-out", trace, "-stats", stats, "-seed", str(c.seed() * 100 + di)] + dargs[1:],
-                         env=dict(os.environ, TMPDIR=work), timeout=3000)
+            try:
+                c.run_driver(binary, [dargs[0], "-out", trace, "-stats", stats, "-seed", str(c.seed() * 100 + di)] + dargs[1:],
+                             env=dict(os.environ, TMPDIR=work), timeout=3000)
+            except c.Infra as e:
+                # the server under test lives in the driver process: a Go panic / fatal error there is the
+                # server dying, which is a verdict, not an infrastructure problem
+                msg = str(e)
+                if "panic:" in msg or "fatal error" in msg:
+                    last = ""
+                    if os.path.exists(trace):
+                        ls = open(trace).read().splitlines()
+                        last = ls[-1][:500] if ls else ""
+                    first = next((x for x in msg.splitlines() if "panic:" in x or "fatal error" in x), "")
+                    return di, dargs, {"crashed": True, "stderr": msg[-6000:], "first": first, "last": last}, None
+                raise
             sub = os.path.join(work, "v%d" % di)
             os.makedirs(sub)
             r = sq.validate_trace(self.trace_spec, trace, devs, sub, parts=self.parts, heap="4g",
@@ -70,6 +83,14 @@ class TraceModelCheck:
         with ThreadPoolExecutor(max_workers=2) as ex:
             results = list(ex.map(one, list(enumerate(self.jobs[tier]))))
         for di, dargs, st, r in results:
+            if st.get("crashed"):
+                if violation is None:
+                    os.makedirs(os.path.join(c.VERIF, "evidence", "replay"), exist_ok=True)
+                    rp = os.path.join(c.VERIF, "evidence", "replay", "%s-seed%d-%d-crash.txt" % (prop, c.seed(), di))
+                    open(rp, "w").write("last recorded event: %s\n\n%s" % (st["last"], st["stderr"]))
+                    violation = {"replay": rp, "line": 0, "driver": dargs,
+                                 "diag": ["the server process died: " + st["first"], "last recorded event: " + st["last"]]}
+                continue
             events += r["events"]
             for k in self.count_keys:
                 totals[k] = totals.get(k, 0) + st.get(k, 0)
